@@ -35,6 +35,8 @@ GET_BODY = [ANY(x) for x in [
     # R8: the Mutex guard alias is inlined: `let mut chain = self.chain.lock().unwrap(); chain.f(..)` -> `self.chain.f(..)`
     {'rule': 'R8', 'regex': r'let mut chain = self\.chain\.lock\(\)\.unwrap\(\);', 'replace': ''},
     {'rule': 'R8', 'regex': r'(?<![.\w])chain\b', 'replace': 'self.chain'},
+    # R8: the same guard used without an alias: `self.chain.lock().unwrap().f(..)` -> `self.chain.f(..)`
+    {'rule': 'R8', 'regex': r'self\.chain\.lock\(\)\.unwrap\(\)', 'replace': 'self.chain'},
     {'rule': 'R7', 'regex': r'self\.chain\.contains\(&key\)', 'replace': 'hoist_contains(&self.chain, &key)'},
     {'rule': 'R4', 'regex': r'assert_eq!\(self\.chain\.pop\(\), Some\(key\)\);', 'replace': 'let popped__ = self.chain.pop(); hoist_assert_eq(popped__, Some(key));'},
     # R8: `cache.get_or_compute(key, || C)` -> lookup, C evaluated in place on a miss (see the header of unit.rs)
@@ -45,7 +47,7 @@ GET_BODY = [ANY(x) for x in [
      'replace': r'(match self.resolve(key) { Ok(p) => \1, Err(e__) => Err(e__) })'},
     {'rule': 'R7', 'regex': r'Shared::new\(', 'replace': 'hoist_shared_new('},
     {'rule': 'R7', 'regex': r'(?<![\w:])Arc::new\(', 'replace': 'hoist_arc_new('},
-    {'rule': 'R7', 'regex': r'(T::from_primitive\(p, self\)\?)\.into\(\)', 'replace': r'hoist_into_shared(\1)'},
+    {'rule': 'R7', 'regex': r'RcRef::new\(key, ((?:[^()]|\([^()]*\))*?)\.into\(\)\)', 'replace': r'RcRef::new(key, hoist_into_shared(\1))'},
     # R3, by shape: the twin keeps the source of `Shared` in a Box; the source EXPRESSION (`e.clone()`, `Arc::clone(&e)`, `e`) stays verbatim
     {'rule': 'R3', 'regex': r'PdfError::Shared\s*\{\s*source:\s*([^{}]*?)\s*\}', 'replace': r'PdfError::Shared { source: hoist_shared_box(\1) }'},
     # R3: `Other { msg }` has its String payload dropped in the twin (construction sites outside the `other!`/`bail!` macros)
@@ -91,14 +93,14 @@ GUARDED_ENS = [
 SIG_GET = [sig('fn get<T: Object+DataSize>(&self,', 'fn get<T: Object>(&mut self,')]
 
 if _has_defer():
-    _GET = {'kind': 'fn', 'file': FILE, 'container': IMPL_RES, 'name': 'get', 'props': PR + ['C18'], 'ret': 'out',
+    _GET = {'kind': 'fn', 'file': FILE, 'container': IMPL_RES, 'name': 'get', 'props': PR + ['C18', 'C12'], 'ret': 'out',
             'requires': ['old(self).wf()'], 'ensures': GET_ENS,
             'rewrites': SIG_GET + [
                 # the drop guard: `let _defer = Defer(|| D); REST }` -> `let out = <REST as its own fn>; D; out }`
                 {'rule': 'R8', 'regex': DEFER + r'(.*)\}\s*\Z', 'replace': r'let out__ = self.get__guarded::<T>(key);\1 out__\n    }'},
             ] + GET_BODY}
     _GUARDED = {'kind': 'fn', 'file': FILE, 'container': IMPL_RES, 'name': 'get', 'rename': 'get__guarded', 'verus_name': 'StorageResolver::get__guarded',
-                'props': PR + ['C18'], 'ret': 'out',
+                'props': PR + ['C18', 'C12'], 'ret': 'out',
                 'requires': ['old(self).wf()', 'old(self).chain@.len() > 0', 'old(self).chain@.last() == key'],
                 'ensures': GUARDED_ENS,
                 'rewrites': [sig('fn get<T: Object+DataSize>(&self, r: Ref<T>)', 'fn get<T: Object>(&mut self, key: PlainRef)'),
@@ -106,9 +108,10 @@ if _has_defer():
                     {'rule': 'R8', 'regex': r'\A\{.*?' + DEFER.replace('(.*?)', '.*?'), 'replace': '{'},
                 ] + GET_BODY}
 else:
-    _GET = {'kind': 'fn', 'file': FILE, 'container': IMPL_RES, 'name': 'get', 'props': PR + ['C18'], 'ret': 'out',
+    _GET = {'kind': 'fn', 'file': FILE, 'container': IMPL_RES, 'name': 'get', 'props': PR + ['C18', 'C12'], 'ret': 'out',
             'requires': ['old(self).wf()'], 'ensures': GET_ENS, 'rewrites': SIG_GET + GET_BODY}
-    _GUARDED = {'kind': 'decl', 'file': FILE, 'header': r'^struct Defer<F: FnMut\(\)>\(F\);$',
+    # (dummy item for the template marker: any declaration that is in every tree; `struct Defer` itself may be gone with the guard)
+    _GUARDED = {'kind': 'decl', 'file': FILE, 'header': r"^struct StorageResolver<'a, B, OC, SC, L>$",
                 'rewrites': [{'rule': 'R2', 'regex': r'\A.*\Z', 'replace': '// StorageResolver::get has no drop guard in this tree: verified as one function'}]}
 
 UNIT = {
